@@ -278,6 +278,24 @@ func FocusFilter(p *core.Program, r *core.Report, rule string) {
 					}
 				}
 			}
+			if at == nil && peer != nil {
+				// the namespace/name text built in place: an expression over both peer.Namespace() and peer.Name()
+				ns, nm := false, false
+				ast.Inspect(rr, func(n ast.Node) bool {
+					if c, isC := n.(*ast.CallExpr); isC && len(c.Args) == 0 {
+						if se, isSe := ast.Unparen(c.Fun).(*ast.SelectorExpr); isSe {
+							if id, isId := ast.Unparen(se.X).(*ast.Ident); isId && info.ObjectOf(id) == types.Object(peer) {
+								ns = ns || se.Sel.Name == "Namespace"
+								nm = nm || se.Sel.Name == "Name"
+							}
+						}
+					}
+					return true
+				})
+				if ns && nm {
+					at = facts.Atom("focus:nsname")
+				}
+			}
 			if at == nil {
 				at = facts.Atom("focus:other:" + core.Stable(info, e))
 			}
@@ -432,6 +450,7 @@ func WorkloadExpansion(p *core.Program, r *core.Report, rule string) {
 	// be built in place or in a constructor helper called from the loop: then the roles are found among the helper's
 	// parameters and carried back to the arguments of the call.
 	var podVar, nsVar, nameVar, apiVar, kindVar, templateVar, numVar, replicasVar types.Object
+	var nameInFd, kindInFd, apiInFd bool
 	okLabels, okPorts := false, false
 	hasPodLit := func(g *core.FuncDecl) bool {
 		found := false
@@ -505,16 +524,49 @@ func WorkloadExpansion(p *core.Program, r *core.Report, rule string) {
 				case "Namespace":
 					nsVar = cobj(x.Rhs[0])
 				case "Owner":
-					if cl, isCl := ast.Unparen(x.Rhs[0]).(*ast.CompositeLit); isCl {
-						for _, el := range cl.Elts {
+					// the owner literal: written here, held in a local, or handed in by the caller of the constructor
+					var lit *ast.CompositeLit
+					litInFd := ctor == fd
+					var find func(g *core.FuncDecl, e ast.Expr, depth int)
+					find = func(g *core.FuncDecl, e ast.Expr, depth int) {
+						ginfo := g.Pkg.TypesInfo
+						e = ast.Unparen(e)
+						if cl, isCl := e.(*ast.CompositeLit); isCl {
+							lit, litInFd = cl, g == fd
+							return
+						}
+						id, isId := e.(*ast.Ident)
+						if !isId || depth > 3 {
+							return
+						}
+						if g == ctor && ctorCall != nil {
+							csig := ctor.Obj.Type().(*types.Signature)
+							for k := 0; k < csig.Params().Len() && k < len(ctorCall.Args); k++ {
+								if ginfo.ObjectOf(id) == types.Object(csig.Params().At(k)) {
+									find(fd, ctorCall.Args[k], depth+1)
+									return
+								}
+							}
+						}
+						if d, _ := defOf(g, id); d != nil {
+							find(g, d, depth+1)
+						}
+					}
+					find(ctor, x.Rhs[0], 0)
+					if lit != nil {
+						lobj := cobj
+						if litInFd {
+							lobj = obj
+						}
+						for _, el := range lit.Elts {
 							if kv, isKV := el.(*ast.KeyValueExpr); isKV {
 								switch core.ExprStr(kv.Key) {
 								case "Name":
-									nameVar = cobj(kv.Value)
+									nameVar, nameInFd = lobj(kv.Value), litInFd
 								case "Kind":
-									kindVar = cobj(kv.Value)
+									kindVar, kindInFd = lobj(kv.Value), litInFd
 								case "APIVersion":
-									apiVar = cobj(kv.Value)
+									apiVar, apiInFd = lobj(kv.Value), litInFd
 								}
 							}
 						}
@@ -526,6 +578,20 @@ func WorkloadExpansion(p *core.Program, r *core.Report, rule string) {
 							if root := core.RootIdent(c.Args[1]); root != nil && (templateVar == nil || cinfo.ObjectOf(root) == templateVar) {
 								templateVar = cinfo.ObjectOf(root)
 								okPorts = true
+							}
+						}
+					}
+				}
+			case *ast.ExprStmt:
+				// maps.Copy(pod.Labels, <template>.Labels)
+				if c, isC := x.X.(*ast.CallExpr); isC && len(c.Args) == 2 {
+					if fn := core.Callee(cinfo, c); fn != nil && fn.Pkg() != nil && fn.Pkg().Path() == "maps" && fn.Name() == "Copy" {
+						d, isD := ast.Unparen(c.Args[0]).(*ast.SelectorExpr)
+						sl, isS := ast.Unparen(c.Args[1]).(*ast.SelectorExpr)
+						if isD && isS && d.Sel.Name == "Labels" && cobj(d.X) == podVar && sl.Sel.Name == "Labels" {
+							if root := core.RootIdent(sl); root != nil && (templateVar == nil || cinfo.ObjectOf(root) == templateVar) {
+								templateVar = cinfo.ObjectOf(root)
+								okLabels = true
 							}
 						}
 					}
@@ -573,7 +639,16 @@ func WorkloadExpansion(p *core.Program, r *core.Report, rule string) {
 			}
 			return nil
 		}
-		nsVar, nameVar, kindVar, apiVar, templateVar = back(nsVar), back(nameVar), back(kindVar), back(apiVar), back(templateVar)
+		nsVar, templateVar = back(nsVar), back(templateVar)
+		if !nameInFd {
+			nameVar = back(nameVar)
+		}
+		if !kindInFd {
+			kindVar = back(kindVar)
+		}
+		if !apiInFd {
+			apiVar = back(apiVar)
+		}
 	}
 	// the replica count: the variable compared with 1 in the statement that raises the number of generated pods, or the
 	// argument of the helper that computes that number
@@ -756,67 +831,119 @@ func WorkloadExpansion(p *core.Program, r *core.Report, rule string) {
 		}
 		r.Check(bad == "", rule+"-replicas", fd.Key()+": the replica count only decides between one and two generated pods", p.Pos(fd.Decl.Pos()), "read only in `count > 1`", "the replica count flows into "+bad+": connectivity must not depend on the number of replicas")
 	}
-	// owner of a bare pod: only from an ownerReference whose controller flag is TRUE
-	if pf := p.Func(core.PkgK8s, "", "PodFromCoreObject"); pf != nil {
-		pinfo := pf.Pkg.TypesInfo
-		var call *ast.CallExpr
-		ast.Inspect(pf.Decl.Body, func(n ast.Node) bool {
-			if c, ok := n.(*ast.CallExpr); ok {
-				if fn := core.Callee(pinfo, c); fn != nil && core.RefName(fn) == "addPodOwner" {
-					call = c
+	// owner of a bare pod: only from an ownerReference whose controller flag is TRUE. Anchored by the EFFECT, not by a
+	// function name: every assignment `<pod>.Owner.Name = <ref>.Name` with <ref> an OwnerReference, wherever it is
+	// written (in PodFromCoreObject, in a helper it calls, after inlining), runs where `*<ref>.Controller` is known -
+	// on its own path, or at every call of the helper that receives the reference, or because the reference is the
+	// non-nil answer of a search helper that returns only such references.
+	{
+		isOwnerRef := func(t types.Type) bool {
+			if pt, ok := t.Underlying().(*types.Pointer); ok {
+				t = pt.Elem()
+			}
+			nt := core.NamedOf(t)
+			return nt != nil && nt.Obj().Name() == "OwnerReference"
+		}
+		controllerKnown := func(g *core.FuncDecl, at ast.Node, ref ast.Expr) bool {
+			fm, paths, found := FactsAtWith(g, at, nil, []ast.Expr{ref})
+			if !found || len(paths) != 1 {
+				return false
+			}
+			pth := strings.TrimPrefix(paths[0], "&")
+			return facts.Entails(fm, facts.Atom("b:*"+pth+".Controller"))
+		}
+		fromSearchHelper := func(g *core.FuncDecl, ref ast.Expr) bool {
+			ginfo := g.Pkg.TypesInfo
+			id, isId := ast.Unparen(ref).(*ast.Ident)
+			if !isId {
+				return false
+			}
+			d, _ := defOf(g, id)
+			if d == nil {
+				return false
+			}
+			hc, isC := ast.Unparen(d).(*ast.CallExpr)
+			if !isC {
+				return false
+			}
+			hd := p.ByObj[core.Callee(ginfo, hc)]
+			if hd == nil {
+				return false
+			}
+			hinfo := hd.Pkg.TypesInfo
+			hw := facts.NewWalker(hinfo)
+			nAns, okAll := 0, true
+			hw.OnExit = func(st int, ret *ast.ReturnStmt, hf facts.Formula) {
+				if hw.FuncLitDepth > 0 || ret == nil || len(ret.Results) == 0 || core.IsNil(hinfo, ret.Results[0]) {
+					return
+				}
+				nAns++
+				res := ast.Unparen(ret.Results[0])
+				if ue, isU := res.(*ast.UnaryExpr); isU && ue.Op == token.AND {
+					res = ast.Unparen(ue.X)
+				}
+				if !facts.Entails(hf, facts.Atom("b:*"+hw.Path(res)+".Controller")) {
+					okAll = false
 				}
 			}
-			return true
-		})
-		ok := false
-		if call != nil {
-			fm, _, found := FactsAt(pf, call, nil)
-			if found {
-				for _, a := range facts.Atoms(fm) {
-					if strings.HasPrefix(a, "b:*") && strings.HasSuffix(a, ".Controller") && facts.Entails(fm, facts.Atom(a)) {
-						ok = true
-					}
+			hw.WalkBody(hd.Decl.Body, nil)
+			return nAns > 0 && okAll
+		}
+		nSites := 0
+		for _, g := range p.FuncsIn(core.PkgK8s) {
+			ginfo := g.Pkg.TypesInfo
+			ast.Inspect(g.Decl.Body, func(n ast.Node) bool {
+				as, ok := n.(*ast.AssignStmt)
+				if !ok || len(as.Lhs) != 1 || len(as.Rhs) != 1 {
+					return true
 				}
-			}
-			// or the reference comes from a search helper: every non-nil answer of the helper is a reference whose
-			// controller flag is known to be true on the path of that answer
-			if !ok && len(call.Args) > 0 {
-				arg := ast.Unparen(call.Args[0])
-				if ue, isU := arg.(*ast.UnaryExpr); isU && ue.Op == token.AND {
-					arg = ast.Unparen(ue.X)
+				lse, ok := ast.Unparen(as.Lhs[0]).(*ast.SelectorExpr)
+				if !ok || lse.Sel.Name != "Name" {
+					return true
 				}
-				if id, isId := arg.(*ast.Ident); isId {
-					if d, _ := defOf(pf, id); d != nil {
-						if hc, isC := ast.Unparen(d).(*ast.CallExpr); isC {
-							if hd := p.ByObj[core.Callee(pinfo, hc)]; hd != nil {
-								hinfo := hd.Pkg.TypesInfo
-								hw := facts.NewWalker(hinfo)
-								nAns, okAll := 0, true
-								hw.OnExit = func(st int, ret *ast.ReturnStmt, hf facts.Formula) {
-									if hw.FuncLitDepth > 0 || ret == nil || len(ret.Results) == 0 || core.IsNil(hinfo, ret.Results[0]) {
-										return
-									}
-									nAns++
-									res := ast.Unparen(ret.Results[0])
-									if ue, isU := res.(*ast.UnaryExpr); isU && ue.Op == token.AND {
-										res = ast.Unparen(ue.X)
-									}
-									want := "b:*" + hw.Path(res) + ".Controller"
-									if !facts.Entails(hf, facts.Atom(want)) {
-										okAll = false
-									}
+				if inner, isSe := ast.Unparen(lse.X).(*ast.SelectorExpr); !isSe || inner.Sel.Name != "Owner" {
+					return true
+				}
+				rse, ok := ast.Unparen(as.Rhs[0]).(*ast.SelectorExpr)
+				if !ok || rse.Sel.Name != "Name" || !isOwnerRef(ginfo.TypeOf(rse.X)) {
+					return true
+				}
+				nSites++
+				ref := rse.X
+				okSite := controllerKnown(g, as, ref) || fromSearchHelper(g, ref)
+				if !okSite {
+					// the reference is a parameter: every call site establishes it
+					if id, isId := ast.Unparen(ref).(*ast.Ident); isId {
+						sig := g.Obj.Type().(*types.Signature)
+						for k := 0; k < sig.Params().Len(); k++ {
+							if ginfo.ObjectOf(id) != types.Object(sig.Params().At(k)) {
+								continue
+							}
+							sites := CallsTo(p, g.Obj)
+							okSite = len(sites) > 0
+							for _, cs := range sites {
+								if k >= len(cs.Call.Args) {
+									okSite = false
+									continue
 								}
-								hw.WalkBody(hd.Decl.Body, nil)
-								ok = nAns > 0 && okAll
+								arg := ast.Unparen(cs.Call.Args[k])
+								if ue, isU := arg.(*ast.UnaryExpr); isU && ue.Op == token.AND {
+									arg = ast.Unparen(ue.X)
+								}
+								if !controllerKnown(cs.In, cs.Call, arg) && !fromSearchHelper(cs.In, arg) {
+									okSite = false
+								}
 							}
 						}
 					}
 				}
-			}
+				r.Check(okSite, rule+"-owner", g.Key()+": a pod's workload is the ownerReference whose controller flag is true", p.Pos(as.Pos()), "the owner's name is taken from a reference whose *Controller is known to be true", "the owner is taken from an ownerReference without requiring controller: true: pods are grouped under a non-controlling owner, or pods of different controllers collapse into one peer")
+				return true
+			})
 		}
-		r.Check(ok, rule+"-owner", pf.Key()+": a pod's workload is the ownerReference whose controller flag is true", p.Pos(pf.Decl.Pos()), "addPodOwner under *ownerRef.Controller == true", "the owner is taken from an ownerReference without requiring controller: true: pods are grouped under a non-controlling owner, or pods of different controllers collapse into one peer")
-	} else {
-		r.Lost(rule, "PodFromCoreObject")
+		if nSites == 0 {
+			r.Bad(rule+"-owner", "k8s: a pod's workload is the ownerReference whose controller flag is true", "-", "no assignment of a pod's owner name from an ownerReference was found in package k8s: re-anchor the rule")
+		}
 	}
 	// peer key: namespace, owner-or-pod name, kind
 	if sfd := p.Func(core.PkgK8s, "WorkloadPeer", "String"); sfd != nil {
